@@ -41,3 +41,13 @@ Theorem C18_login_prompt_was_received :
   exists data, data <> [] /\ cpend c = data ++ cpend c1 /\ is_suffix LOGIN_P data = true.
 Proof. exact login_prompt_was_received. Qed.
 Print Assumptions C18_login_prompt_was_received.
+
+(* (3) the U-Boot stage (autoboot intercept, then the prompt poll loop with ^C every second): for an ARBITRARY
+       console it ends no later than boot_timeout plus ONE polling interval (2 x 0.5 s) after it began, and never blocks *)
+Theorem C18_uboot_stage_deadline :
+  forall fuel cfg T sts c r c' sts',
+  u_timeout cfg = Some T -> (0 <= T)%Z -> slow c = None ->
+  uboot_bringup fuel cfg sts c = (r, c', sts') ->
+  (nowc c' <= nowc c + T + 2 * HALF)%Z /\ never_blocks r.
+Proof. exact uboot_deadline. Qed.
+Print Assumptions C18_uboot_stage_deadline.
